@@ -333,18 +333,31 @@ func TestVerifC18(t *testing.T) {
 		}
 		return vs
 	}
+	shard, nshards, child := ev.ShardInfo()
+	if !child && r.Thorough() {
+		exit, evs := ev.RunShards(14, "TestVerifC18")
+		os.Setenv("VERIF_MERGE_EVIDENCE", strings.Join(evs, ","))
+		c18Describe(r, 3, 4)
+		if code := r.Finish(); code > exit {
+			exit = code
+		}
+		if exit != 0 {
+			os.Exit(exit)
+		}
+		return
+	}
 	w := r.Serial()
 	type scen struct {
 		c     c18Case
-		bound int
+		bound int // 0 = the pass's bound
+	}
+	bounds := []int{2}
+	if r.Thorough() {
+		bounds = []int{3, 4} // bound 3 completes; bound 4 runs under the time cap and is reported per scenario
 	}
 	var scens []scen
-	bound := 2
-	if r.Thorough() {
-		bound = 3
-	}
 	// reconnects within one process, with other frame sizes (all frame sizes are in the quantifier)
-	scens = append(scens, scen{c18Case{InFlight: 2, Frames: 2, Second: 12, Timers: 0}, 1}, scen{c18Case{InFlight: 2, Frames: 3, Second: 8, Timers: 0}, 1}, scen{c18Case{InFlight: 1, Frames: 2, Second: 20, Timers: 1}, bound})
+	scens = append(scens, scen{c18Case{InFlight: 2, Frames: 2, Second: 12, Timers: 0}, 1}, scen{c18Case{InFlight: 2, Frames: 3, Second: 8, Timers: 0}, 1}, scen{c18Case{InFlight: 1, Frames: 2, Second: 20, Timers: 1}, 0})
 	for _, n := range []int{1, 2, 3} {
 		maxF := 2*n + 2
 		if !r.Thorough() && n == 3 {
@@ -354,61 +367,85 @@ func TestVerifC18(t *testing.T) {
 			if !r.Thorough() && fr > 0 && fr < maxF && fr != n+1 {
 				continue
 			}
-			b := bound
-			scens = append(scens, scen{c18Case{InFlight: n, Frames: fr, Timers: 1}, b})
+			scens = append(scens, scen{c18Case{InFlight: n, Frames: fr, Timers: 1}, 0})
 		}
-		scens = append(scens, scen{c18Case{InFlight: n, Frames: n + 1, Tail: 3, Timers: 1}, bound})
-		scens = append(scens, scen{c18Case{InFlight: n, Frames: n + 1, Cut: len(c18Header()) + c18FrameSize + 3, Timers: 1}, bound})
+		scens = append(scens, scen{c18Case{InFlight: n, Frames: n + 1, Tail: 3, Timers: 1}, 0})
+		scens = append(scens, scen{c18Case{InFlight: n, Frames: n + 1, Cut: len(c18Header()) + c18FrameSize + 3, Timers: 1}, 0})
 	}
 	scens = append(scens, scen{c18Case{InFlight: 256, Frames: 258, Timers: 0}, 1})
-
-	r.SetDeadline(map[bool]time.Duration{false: 150 * time.Second, true: 40 * time.Minute}[r.Thorough()])
+	r.SetDeadline(map[bool]time.Duration{false: 150 * time.Second, true: 35 * time.Minute}[r.Thorough()])
 	per := map[string]interface{}{}
-	for _, sc := range scens {
-		c := sc.c
-		c.Bound = sc.bound
-		vsched.ClearParams()
-		vsched.SetParam("inFlight", c.InFlight)
-		obs := &c18Obs{}
-		// determinism proof: the default schedule replayed twice gives the same choice sequence
-		e1 := vsched.Run(nil, vsched.Options{Horizon: 200000, EnvBudget: c.Timers}, c18Body(c, obs))
-		os.RemoveAll(obs.dir)
-		e2 := vsched.Run(e1.Choices(), vsched.Options{Horizon: 200000, EnvBudget: c.Timers}, c18Body(c, obs))
-		os.RemoveAll(obs.dir)
-		if fmt.Sprint(e1.Choices()) != fmt.Sprint(e2.Choices()) {
-			fmt.Fprintf(os.Stderr, "HARNESS-ERROR: schedule replay is not deterministic for %+v\n", c)
-			os.Exit(2)
-		}
-		x := &vsched.Explorer{Bound: sc.bound, Opt: vsched.Options{Horizon: 200000, EnvBudget: c.Timers}, Stop: r.Expired}
-		x.Body = func() { c18Body(c, obs)() }
-		x.Check = func(e *vsched.Exec) {
-			w.Evaluations++
-			w.Nontrivial++
-			w.States += int64(len(e.Choices()))
-			w.Transitions += int64(len(e.Choices()))
-			sig, msg := c18Check(c, e, obs)
-			w.Outcome(ev.Hash(c.InFlight, c.Frames, sig, len(e.Choices())))
-			if sig != "" {
-				cc := c
-				cc.Choices = e.Choices()
-				w.Violate(sig, fmt.Sprintf("pool of %d buffers, %d frames (+%d tail bytes): %s", c.InFlight, c.Frames, c.Tail, msg), cc, len(cc.Choices))
+	completed := 0
+	for pi, passBound := range bounds {
+		allComplete := true
+		for _, sc := range scens {
+			bound := passBound
+			if sc.bound != 0 {
+				if pi > 0 {
+					continue // fixed-bound scenarios run once
+				}
+				bound = sc.bound
+			}
+			c := sc.c
+			c.Bound = bound
+			vsched.ClearParams()
+			vsched.SetParam("inFlight", c.InFlight)
+			obs := &c18Obs{}
+			// determinism proof: the default schedule replayed twice gives the same choice sequence
+			e1 := vsched.Run(nil, vsched.Options{Horizon: 200000, EnvBudget: c.Timers}, c18Body(c, obs))
+			os.RemoveAll(obs.dir)
+			os.RemoveAll(obs.dir2)
+			e2 := vsched.Run(e1.Choices(), vsched.Options{Horizon: 200000, EnvBudget: c.Timers}, c18Body(c, obs))
+			os.RemoveAll(obs.dir)
+			os.RemoveAll(obs.dir2)
+			if fmt.Sprint(e1.Choices()) != fmt.Sprint(e2.Choices()) {
+				fmt.Fprintf(os.Stderr, "HARNESS-ERROR: schedule replay is not deterministic for %+v\n", c)
+				os.Exit(2)
+			}
+			x := &vsched.Explorer{Bound: bound, Opt: vsched.Options{Horizon: 200000, EnvBudget: c.Timers}, Stop: r.Expired, Shard: shard, NShards: nshards}
+			x.Body = func() { c18Body(c, obs)() }
+			x.OnDiscard = func(e *vsched.Exec) { os.RemoveAll(obs.dir); os.RemoveAll(obs.dir2) }
+			x.Check = func(e *vsched.Exec) {
+				w.Evaluations++
+				w.Nontrivial++
+				w.States += int64(len(e.Choices()))
+				w.Transitions += int64(len(e.Choices()))
+				sig, msg := c18Check(c, e, obs)
+				w.Outcome(ev.Hash(c.InFlight, c.Frames, sig, len(e.Choices())))
+				if sig != "" {
+					cc := c
+					cc.Choices = e.Choices()
+					w.Violate(sig, fmt.Sprintf("pool of %d buffers, %d frames (+%d tail bytes): %s", c.InFlight, c.Frames, c.Tail, msg), cc, len(cc.Choices))
+				}
+			}
+			x.Explore()
+			per[fmt.Sprintf("bound=%d inflight=%d frames=%d tail=%d cut=%d second=%d", bound, c.InFlight, c.Frames, c.Tail, c.Cut, c.Second)] = map[string]interface{}{"executions": x.Executions, "max_points": x.MaxPoints, "complete": !x.Capped}
+			if x.Capped {
+				allComplete = false
+			}
+			if w.WantSample() {
+				w.Sample(map[string]interface{}{"scenario": c, "executions": x.Executions, "max_scheduling_points": x.MaxPoints})
 			}
 		}
-		x.Explore()
-		per[fmt.Sprintf("inflight=%d frames=%d tail=%d cut=%d second=%d", c.InFlight, c.Frames, c.Tail, c.Cut, c.Second)] = map[string]interface{}{"bound": sc.bound, "executions": x.Executions, "max_points": x.MaxPoints, "complete": !x.Capped}
-		if x.Capped {
+		if allComplete {
+			completed = passBound
+		} else if pi == 0 {
 			r.MarkCapped()
 		}
-		if w.WantSample() {
-			w.Sample(map[string]interface{}{"scenario": c, "executions": x.Executions, "max_scheduling_points": x.MaxPoints})
-		}
 	}
+	r.Extra["completed_deviation_bound"] = completed
+	r.Extra["shard"] = fmt.Sprintf("%d/%d", shard, nshards)
 	r.Extra["scenarios"] = per
-	r.Bounds["preemption_bound"] = bound
-	r.Rule = "the real handleConn of thermal-writer (which starts the real writer goroutine) on an in-memory connection, under the cooperative scheduler: instrumented copies of main.go/thermalraw.go/bufferedfile.go (channel operations, goroutine start, select, one-minute rotation timer, clock are scheduling points; the Go select's random pick and the timer are explored choices); buffer pool size inFlight scaled to 1,2,3 with 0..2N+2 frames, a trailing partial frame, a short read, inFlight=256 with 258 frames at bound 1, and the camera reconnecting within the same process with another frame size; every interleaving with at most the stated number of deviations (preemptions + timer fires). Oracle: all *.cptr parse (magic, version, header fields, only length-prefixed frame sections, no trailing bytes), concatenated payloads = frames sent, no deadlock/panic, and no pair of frame-buffer accesses (io.ReadFull fill vs writeFrame) unordered by channel happens-before. Non-trivial = every execution."
-	r.Assumptions = []string{"sequentially consistent interleavings at synchronisation granularity + happens-before race check on the frame buffers (a race-free Go program is SC)", "bufio buffer scaled from 32 MiB to 64 KiB, inFlight scaled through a run-time parameter (both by the syntactic instrumenter)"}
+	c18Describe(r, bounds[0], bounds[len(bounds)-1])
 	code := r.Finish()
 	if code != 0 {
 		os.Exit(code)
 	}
+}
+
+func c18Describe(r *ev.Run, completeBound, maxBound int) {
+	r.Bounds["deviation_bound_complete"] = completeBound
+	r.Bounds["deviation_bound_attempted"] = maxBound
+	r.Rule = "the real handleConn of thermal-writer (which starts the real writer goroutine) on an in-memory connection, under the cooperative scheduler: instrumented copies of main.go/thermalraw.go/bufferedfile.go (channel operations, goroutine start, select, one-minute rotation timer, clock are scheduling points; the Go select's random pick and the timer are explored choices); buffer pool size inFlight scaled to 1,2,3 with 0..2N+2 frames, a trailing partial frame, a short read, inFlight=256 with 258 frames at bound 1, and the camera reconnecting within the same process with another frame size; every interleaving with at most the stated number of deviations (preemptions + timer fires; thorough: sharded over 14 processes, the higher bound under a time cap, reported per scenario). Oracle: all *.cptr parse (magic, version, header fields, only length-prefixed frame sections, no trailing bytes), concatenated payloads = frames sent, no deadlock/panic, and no pair of frame-buffer accesses (io.ReadFull fill vs writeFrame) unordered by channel happens-before. Non-trivial = every execution."
+	r.Assumptions = []string{"sequentially consistent interleavings at synchronisation granularity + happens-before race check on the frame buffers (a race-free Go program is SC)", "bufio buffer scaled from 32 MiB to 64 KiB, inFlight scaled through a run-time parameter (both by the syntactic instrumenter)"}
 }
